@@ -661,6 +661,20 @@ class Interp:
         if arr.owner is not None:
             self.problem("inplace-on-cached", f"store `{norm_src(node)[:70]}` writes into the "
                          f"array cached as '{arr.owner}'", node)
+        # A[I, J] = v with equally long integer index lists: the entries (I[k], J[k])
+        if isinstance(sl, ast.Tuple) and len(sl.elts) >= 2:
+            try:
+                idx = [self.ev(e, env) for e in sl.elts]
+            except Unsupported:
+                idx = []
+            if idx and all(isinstance(i, (list, range)) and all(
+                    isinstance(x, int) and not isinstance(x, bool) for x in i) for i in idx) \
+                    and len({len(i) for i in idx}) == 1 and len(idx) <= arr.rank:
+                for pos in zip(*idx):
+                    consts = [ast.Constant(value=int(x)) for x in pos]
+                    one = ast.Tuple(elts=consts, ctx=ast.Load())
+                    self.store_arr(arr, one, val, env, node)
+                return
         spec = self._slice_spec(sl, env, arr, node)
         while len(spec) > arr.rank and spec[-1] == (None, None):
             spec.pop()
@@ -1439,6 +1453,8 @@ class Interp:
         if name == "len":
             if isinstance(args[0], Arr):
                 return args[0].shape[0]
+            if not hasattr(args[0], "__len__"):
+                raise Unsupported("len of " + type(args[0]).__name__)
             return len(args[0])
         if name == "range":
             return range(*[_as_int(a) for a in args])
@@ -1763,6 +1779,10 @@ class Interp:
 
     # -- numpy -----------------------------------------------------------------------------------
     def np_call(self, name, args, kwargs, node):
+        if name == "arange" and 1 <= len(args) <= 2 and not kwargs and all(
+                isinstance(a, int) and not isinstance(a, bool) for a in args) \
+                and abs(args[-1]) <= 64:
+            return list(range(*args))       # an index list (used for fancy indexing / loops)
         if name in ("zeros", "ones"):
             shp = args[0]
             if shp == GRIDSHAPE or shp is GRID:
